@@ -19,7 +19,8 @@
 From V.model Require Import Base RelLex RelParse RelAcc RelGrammar RelGrammarAll.
 From V.model Require RelParsePre RelLossy.
 From V.proofs Require Import RelGrammarLexP RelGrammarParseP RelGrammarAccP RelGrammarLossyP.
-From V.proofs Require Import RelLexInvP RelGrammarAllParseP RelGrammarAllInvP RelGrammarAllAccP.
+From V.proofs Require Import RelLexInvP RelGrammarAllParseP RelGrammarAllInvP RelGrammarAllAccP RelAccStructureP.
+From V.model Require RelEdit.
 
 (* 1. the token partition of a rendered well-formed field *)
 Theorem C10_lex : forall allow (f : rfield), wf_rfield allow f = true -> rlex (rrender f) = Ok (rtoks f).
@@ -314,6 +315,38 @@ Theorem C10_lexable : forall ts : list rtoken, lexable ts = true <-> rlex (rttex
 Proof. exact lexable_iff. Qed.
 Check C10_lexable : forall ts : list rtoken, lexable ts = true <-> rlex (rttext_of ts) = Ok ts.
 Print Assumptions C10_lexable.
+
+(* 9f. The accessor model of the cone of C11 (RelEdit.structure: the list of entries of alternatives,
+   version text as written) agrees with racc on EVERY tree -- parsed with or without errors, edited,
+   built by hand: whenever racc yields a value, structure yields the same entries and
+   alternatives, field by field (rel_agree: names, qualifiers, architectures and profiles equal, the
+   version equal up to debversion's re-printing).  With 9a: the structure of every error-free text
+   is the content of its liberal layout. *)
+Theorem C10_acc_is_structure : forall (t : rtree) a, racc t = Ok a ->
+  exists S, RelEdit.structure t = Ok S /\ Forall2 (Forall2 rel_agree) S (fst a) /\
+            map (@length _) S = map (@length _) (fst a).
+Proof.
+  intros t a H. destruct (racc_structure t a H) as (S & E & HS). exists S. split; [exact E|]. split; [exact HS|].
+  apply (racc_structure_shape t a S H E).
+Qed.
+Check C10_acc_is_structure : forall (t : rtree) a, racc t = Ok a ->
+  exists S, RelEdit.structure t = Ok S /\ Forall2 (Forall2 rel_agree) S (fst a) /\
+            map (@length _) S = map (@length _) (fst a).
+Print Assumptions C10_acc_is_structure.
+
+Theorem C10_image_structure : forall (s : str) (allow : bool) (t : rtree) a,
+  parse_relaxed s allow = Ok (t, 0) -> racc t = Ok a ->
+  exists (g : afield) S, awf allow g = true /\ arender g = s /\ atree_of g = t /\ acontent g = Ok a /\
+    RelEdit.structure t = Ok S /\ Forall2 (Forall2 rel_agree) S (fst a).
+Proof.
+  intros s allow t a Hp Ha. destruct (reader_image s allow t Hp) as (g & Hw & Hr & Ht & Hc).
+  destruct (racc_structure t a Ha) as (S & E & HS). exists g, S. repeat split; try assumption. rewrite <- Hc. exact Ha.
+Qed.
+Check C10_image_structure : forall (s : str) (allow : bool) (t : rtree) a,
+  parse_relaxed s allow = Ok (t, 0) -> racc t = Ok a ->
+  exists (g : afield) S, awf allow g = true /\ arender g = s /\ atree_of g = t /\ acontent g = Ok a /\
+    RelEdit.structure t = Ok S /\ Forall2 (Forall2 rel_agree) S (fst a).
+Print Assumptions C10_image_structure.
 
 (* liberal layouts outside the Policy grammar: "a []", "a <>", "a (= 5::)", "a (> 1)", "a ( 1 )":
    each is well-formed as a liberal layout, read without error, and the accessors give the content
